@@ -1,7 +1,7 @@
 (* C16 - generators: the index decoders used for skip sampling are bijections, the sampled
    indices are distinct and in range. *)
 From Coq Require Import List Arith Lia.
-From XV Require Import Base.Label Base.LSet Model.Decoders Proofs.Combs Proofs.DecoderProofs Proofs.SkipAll Proofs.CompleteProofs.
+From XV Require Import Base.Label Base.LSet Model.Decoders Proofs.Combs Proofs.DecoderProofs Proofs.SkipAll Proofs.CompleteProofs Base.ODict Base.Attr Base.Outcome Model.Hypergraph Model.SimplicialComplex Proofs.ScInv.
 Import ListNotations.
 
 (* _index_to_edge_comb(index, n, m) is the index-th m-combination of range(n) in lexicographic
@@ -85,3 +85,14 @@ Theorem C16_complete_hypergraph : forall n order mo incl,
              exists c, In c E /\ (forall x, In x c <-> In x f)).
 Proof. intros n order mo incl. exact (complete_edges_spec n _ (complete_sizes_NoDup order mo incl)). Qed.
 Print Assumptions C16_complete_hypergraph.
+
+(* generated simplicial complexes (random_simplicial_complex, the flag complexes) are built by add_nodes_from and
+   add_simplices_from on an empty complex: whatever simplices are handed over, in whatever bulk format, with whatever
+   max_order, the result is downward closed, without repeated or empty simplices (the invariant of C03) *)
+Theorem C16_generated_complexes_closed : forall nodes eb1 mo1 eb2 mo2 a1 a2 h1 h2,
+  SInv (st_of (add_simplices_from eb2 mo2 a2 h2
+          (st_of (add_simplices_from eb1 mo1 a1 h1 (st_of (add_nodes_from nodes [] hg_empty)))))).
+Proof.
+  intros. apply SInv_add_simplices_from. apply SInv_add_simplices_from. apply SInv_add_nodes_from. apply SInv_empty.
+Qed.
+Print Assumptions C16_generated_complexes_closed.
